@@ -43,7 +43,7 @@ func obsTags(o TextObs, texts []c17.PkgText) []string {
 		case o.Stage == "panic" && strings.Contains(o.Err, "nil pointer dereference") && hasViewOfJob(texts):
 			tags = append(tags, "C16-F4:view-result-of-job-nil-dereference") // fixed a6c74ddce: a regression
 		case o.Stage == "died" && strings.Contains(o.Err, "stack") && strings.Contains(o.Err, "parser.lookupField") && hasFieldSetCycle(texts):
-			tags = append(tags, "C16-F9:field-set-cycle-stack-overflow-in-field-lookup")
+			tags = append(tags, "C16-F9:field-set-cycle-stack-overflow-in-field-lookup") // fixed 87e6dec40: a regression
 		case o.Stage == "died" && strings.Contains(o.Err, "stack") && hasFieldSetCycle(texts):
 			tags = append(tags, "C16-F5:field-set-cycle-stack-overflow") // fixed f76fc3ec8: a regression
 		default:
@@ -71,7 +71,7 @@ func obsTags(o TextObs, texts []c17.PkgText) []string {
 			tags = append(tags, "C16-F1b:builder-refusal-without-position")
 		} else if o.Stage == "build" && len(o.Unpositioned) == 1 && o.Unpositioned[0] == "incorrect nested table kind" {
 			// a field `name RecordTable` of another family than the containing table
-			tags = append(tags, "C16-F10:wrong-family-container-error-without-position")
+			tags = append(tags, "C16-F10:wrong-family-container-error-without-position") // fixed 70f4f5752: a regression
 		} else {
 			tags = append(tags, "error-without-position")
 		}
